@@ -102,7 +102,7 @@ Print Assumptions C11_comment_ops_ok.
 
 (* MAIN: assembling the disassembly of a well-formed module gives back the same strings, function table and code (and the
    entry point when the module has one).  wf_moduleb is the decidable hypothesis evaluated by the harness on every module:
-   strings shorter than 4096 bytes and pairwise distinct, function names identifiers, code laid out in table order, code that
+   strings pairwise distinct (of any length and content), function names identifiers, code laid out in table order, code that
    decodes, at most 2048 jump operands per function, floats the oracle re-reads.  Strings may contain any byte, jumps may go
    anywhere. *)
 Theorem C11_asm_disasm_module :
@@ -165,11 +165,9 @@ Theorem C11_text_roundtrip_refuted_patch_table :
   exists m, forall pf sf, roundtrip_err table_list pf sf m = Some (asm_err_memory, 2054).
 Proof. exists many_jumps_module. intros pf sf. vm_compute. reflexivity. Qed.
 Print Assumptions C11_text_roundtrip_refuted_patch_table.
-(* a string of 4096 bytes does not fit the assembler's directive buffer *)
-Theorem C11_text_roundtrip_refuted_long_string :
-  exists m, forall pf sf, roundtrip_err table_list pf sf m = Some (asm_err_syntax, 2).
-Proof. exists long_string_module. intros pf sf. vm_compute. reflexivity. Qed.
-Print Assumptions C11_text_roundtrip_refuted_long_string.
+(* repaired (the .string buffer is sized from the directive): a string of 4096 bytes round-trips *)
+Example C11_text_long_string_roundtrips : forall pf sf, roundtrip_ok table_list pf sf long_string_module = true.
+Proof. intros pf sf. vm_compute. reflexivity. Qed.
 
 (* what the repaired tools now do with the former witnesses: all round-trip (regression Examples) *)
 Example C11_text_repaired_witnesses : forall pf sf,
